@@ -11,8 +11,10 @@ Both public paths are driven: `ExecutionContext.resolve_global_constants(script)
 * oracle (the property's own statement): iterate one-step substitution until nothing changes; no `constant` node may
   remain; anything else must be untouched; unknown reachable hash => the call must raise.  Also: the registry key
   equals the independent `expr` hash, and neither the script object nor the registered expressions are mutated.
-* model: `Impl.Constants.resolve` on the registry *as pytezos stored it* (its own keys), outputs diffed
-  (expanded tree, or which error / which hash the KeyError names).
+* model: the registrations are replayed in the model — `Impl.Constants.register` computes every key itself (C05 forger,
+  executable Lean BLAKE2b-256, Base58Check with the Lean SHA-256: the full `expr…` text) — and `Impl.Constants.resolve` runs
+  on THAT registry; outputs diffed (expanded tree, or which error / which hash the KeyError names).  A wrong key on either
+  side shows as an `unknown …` on one side only.  A `K` stream compares the key of every distinct registered expression.
 A few malformed `constant` nodes (annotated, extra or missing arguments) and a cyclic registry (made by writing into
 `global_constants` directly) are mirror-only cases: the property does not speak about them.
 """
@@ -330,8 +332,10 @@ def run(ctx):
                          'unreachable one); every case goes through ExecutionContext.resolve_global_constants, the well-formed ones also through '
                          'ContractInterface.from_micheline; non-trivial = the script contains at least one reference')
     ctx.assumptions += [
-        'BLAKE2b / base58 / the Micheline forger are not modelled in Lean: the registration key is recomputed independently in Python '
-        '(hashlib, base58, own forger using only the prim tag table) and compared for every registered expression',
+        'the registration key is computed by the model itself (C05 mirror of forge_micheline, executable Lean BLAKE2b-256, C09 mirror of '
+        'base58_encode with the Lean SHA-256) and compared with the key pytezos files the expression under; BLAKE2b / SHA-256 are tied to '
+        'hashlib by that comparison and to recorded expr hashes by kernel-evaluated examples (nothing is proved about the hash functions '
+        'beyond the digest length); the oracle still recomputes the key independently in Python (hashlib, base58, own forger)',
         'acyclicity is a hypothesis of the theorems (with real hashes a cycle needs a hash fixpoint); a cyclic registry written '
         'directly into global_constants is only compared with the model (RecursionError)',
         'malformed `constant` nodes (annotated / wrong arguments) are outside the property; the code is lenient there '
@@ -417,11 +421,34 @@ def run(ctx):
         ectx = make_context(regs)
         stored = [(k, copy.deepcopy(v)) for k, v in ectx.global_constants.items()]
         c['stored_keys'] = [k for k, _ in stored]
-        lines.append(' '.join([str(len(stored))] + [k.encode().hex() + ' ' + mich.to_line(v) for k, v in stored] + [mich.to_line(c['script'])]))
+        # the model gets the registrations AS MADE: `*` = through register_global_constant (the model computes the key itself
+        # with the Lean BLAKE2b-256 / SHA-256 and the C05 forger), an explicit key = written into global_constants directly
+        lines.append(' '.join([str(len(c['regs']))] + [('*' if k is None else k.encode().hex()) + ' ' + mich.to_line(v) for k, v in c['regs']]
+                              + [mich.to_line(c['script'])]))
         impl_direct.append(run_direct(ectx, script))
         c['mutated'] = script != c['script'] or list(ectx.global_constants.items()) != stored
         contexts.append(ectx)
-    model = ctx.model(lines)
+    # registration-key stream: every distinct expression registered above + the recorded ones, real key vs the model's
+    key_cases, seen_expr = [], set()
+    for v in [m for m, _ in KNOWN_KEYS] + [v for c in cases for k, v in c['regs'] if k is None]:
+        ln = mich.to_line(v)
+        if ln not in seen_expr:
+            seen_expr.add(ln)
+            key_cases.append(v)
+    key_real = []
+    for v in key_cases:
+        e1 = make_context([(None, copy.deepcopy(v))])
+        key_real.append('ok ' + ' '.join(k.encode().hex() for k in e1.global_constants))
+    out = ctx.model(lines + ['K ' + mich.to_line(v) for v in key_cases])
+    model = out[:len(lines)] if out is not None else None
+    if out is not None:
+        for v, real, m in zip(key_cases, key_real, out[len(lines):]):
+            if real != m:
+                ctx.mismatch('registration-key', {'expression': mich.to_line(v)[:200]}, bytes.fromhex(real[3:].split(' ')[0]).decode() if real[3:] else real,
+                             bytes.fromhex(m[3:]).decode() if m.startswith('ok ') else m)
+    for v in key_cases:
+        ctx.case({'op': 'register_global_constant', 'expr': hashlib.sha1(mich.to_line(v).encode()).hexdigest()[:16]}, nontrivial=False)
+    ctx.extra['registration_keys_compared'] = len(key_cases)
 
     reported = set()
 
